@@ -157,7 +157,7 @@ def main():
     names = list(MAKERS)
     samples = []
     for k in range(1, maxk + 1):
-        for combo in itertools.permutations(names, k) if k <= 2 else itertools.combinations(names, k):
+        for combo in itertools.permutations(names, k) if k <= 3 else itertools.combinations(names, k):
             for in_bundle in (False, True):
                 n += 1
                 key = "%s%s" % ("bundle:" if in_bundle else "doc:", "+".join(combo))
@@ -180,7 +180,7 @@ def main():
             print("still failing:", f["what"])
         return 1 if [f for f in failures.values() if not f["kf"]] else 0
     res = {"evaluations": n, "distinct": n, "samples": samples,
-           "rule": "ordered selections (size<=2) and subsets (size<=%d) of %d record makers, at document level and inside a bundle; reference unification as oracle" % (maxk, len(names)),
+           "rule": "ordered selections (size<=3: every assertion order, so kinds sharing an identifier interleave) and subsets (size<=%d) of %d record makers, at document level and inside a bundle; reference unification as oracle" % (maxk, len(names)),
            "failures_found": len(failures), "failures": list(failures.values())}
     if a.out:
         json.dump(res, open(a.out, "w"), indent=1)
